@@ -43,6 +43,9 @@ type gcStrings struct {
 	A, B string
 }
 
+// a one-word pointer component registered FIRST (lowest id): batch-adding it shifts the column of every kept component
+type gcFirst struct{ Q *gcPayload }
+
 type gcPlain1 struct{ X, Y int64 }
 type gcPlain2 struct{ V [3]int32 }
 type gcRel struct {
@@ -82,6 +85,7 @@ func checkPayload(p *gcPayload, tok uint64, what string) {
 func gcSoak(seconds float64, seed uint64) {
 	r := &rng{s: seed}
 	w := ecs.NewWorld(ecs.NewConfig().WithCapacityIncrement(16).WithRelationCapacityIncrement(4))
+	fID := ecs.ComponentID[gcFirst](&w)
 	hID := ecs.ComponentID[gcHolder](&w)
 	h2ID := ecs.ComponentID[gcHolder2](&w)
 	p1 := ecs.ComponentID[gcPlain1](&w)
@@ -196,9 +200,18 @@ func gcSoak(seconds float64, seed uint64) {
 					f := ecs.All(p1).Without(p2)
 					w.Batch().Add(&f, p2)
 				}
+				// ... and of the lowest-id pointer component onto everything that carries holder2 (a component with a
+				// lower id than the kept ones moves every kept column one to the right in the destination table)
+				if r.chance(5) {
+					f := ecs.All(h2ID).Without(fID)
+					w.Batch().Add(&f, fID)
+				}
 			case 9:
 				if r.chance(5) {
 					w.Batch().Remove(ecs.All(p1, p2), p2)
+				}
+				if r.chance(5) {
+					w.Batch().Remove(ecs.All(h2ID, fID), fID)
 				}
 			case 10:
 				verify(e)
